@@ -28,6 +28,16 @@ class M3:
 class M4:
     x: typing.Optional[int]
 class IntList(typing.List[int]): pass
+K_ = TypeVar("K_"); V_ = TypeVar("V_")
+@dataclasses.dataclass
+class G2(Generic[K_, V_]):
+    x: typing.Dict[V_, K_]                 # the field mentions the variables in another order than Generic[K_, V_] declares them
+@dataclasses.dataclass
+class MDsi:
+    x: typing.Dict[str, int]
+@dataclasses.dataclass
+class MDis:
+    x: typing.Dict[int, str]
 
 POOL = {
     "int": int, "bool": bool, "str": str, "A": A, "B": B, "G_int": G[int], "G_str": G[str],
@@ -38,6 +48,7 @@ POOL = {
     "Ann_int": Annotated[int, "m"], "Any": Any, "M1": M1, "M2": M2, "M3": M3, "M4": M4, "List_M1": typing.List[M1], "List_M3": typing.List[M3],
     "Opt_M1": typing.Optional[M1], "Seq_str": typing.Sequence[str], "IntList": IntList, "List_Opt_int": typing.List[typing.Optional[int]],
     "Dict_str_List_int": typing.Dict[str, typing.List[int]], "Dict_str_List_str": typing.Dict[str, typing.List[str]],
+    "Dict_int_str": typing.Dict[int, str], "G2_int_str": G2[int, str], "G2_str_int": G2[str, int], "MDsi": MDsi, "MDis": MDis,
 }
 NAMES = list(POOL)
 
@@ -79,6 +90,11 @@ def mk(name, sel, i, s):
     if name == "List_Opt_int": return [i, None] if sel else [None]
     if name == "Dict_str_List_int": return {"k": [i]} if sel else {"k": []}
     if name == "Dict_str_List_str": return {"k": [s]} if sel else {}
+    if name == "Dict_int_str": return {1: s} if sel else {}                 # (keys are fixed: symbolic keys are realised by hashing and never exhaust)
+    if name == "G2_int_str": return G2({"k": i} if sel else {})
+    if name == "G2_str_int": return G2({1: s} if sel else {})
+    if name == "MDsi": return MDsi({"k": i} if sel else {})
+    if name == "MDis": return MDis({1: s} if sel else {})
     raise KeyError(name)
 
 # ---- typing semantics: does a value conform to a type of the pool?
@@ -115,6 +131,9 @@ def conforms(name, v):
     if name == "List_M3": return isinstance(v, list) and all(conforms("M3", e) for e in v)
     if name == "Opt_M1": return v is None or conforms("M1", v)
     if name == "List_Opt_int": return isinstance(v, list) and all(e is None or isinstance(e, int) for e in v)
+    if name == "Dict_int_str": return isinstance(v, dict) and all(isinstance(k, int) and isinstance(e, str) for k, e in v.items())
+    if name in ("G2_int_str", "MDsi"): return type(v) is (G2 if name.startswith("G2") else MDsi) and conforms("Dict_str_int", v.x)
+    if name in ("G2_str_int", "MDis"): return type(v) is (G2 if name.startswith("G2") else MDis) and conforms("Dict_int_str", v.x)
     raise KeyError(name)
 
 def mk_pair(sname, dname):
@@ -135,11 +154,12 @@ def try_converter(Src, Dst, recipe=()):
 REF = '''
 ITER = {"List_int": ("list", "int"), "List_str": ("list", "str"), "List_bool": ("list", "bool"), "Seq_int": ("seq", "int"), "Seq_str": ("seq", "str"),
         "Set_int": ("set", "int"), "Tuple_int": ("tuple", "int"), "List_M1": ("list", "M1"), "List_M3": ("list", "M3"), "List_Opt_int": ("list", "Opt_int")}
-DICT = {"Dict_str_int": ("str", "int"), "Dict_str_str": ("str", "str"), "Dict_str_List_int": ("str", "List_int"), "Dict_str_List_str": ("str", "List_str")}
+DICT = {"Dict_str_int": ("str", "int"), "Dict_str_str": ("str", "str"), "Dict_str_List_int": ("str", "List_int"), "Dict_str_List_str": ("str", "List_str"), "Dict_int_str": ("int", "str")}
 UNION = {"Opt_int": {"int", "None"}, "Opt_str": {"str", "None"}, "Opt_List_int": {"List_int", "None"}, "Opt_List_str": {"List_str", "None"},
          "U_int_str": {"int", "str"}, "U_int_str_none": {"int", "str", "None"}, "Opt_M1": {"M1", "None"}}
-MODEL_FIELD = {"M1": "int", "M2": "int", "M3": "str", "M4": "Opt_int", "G_int": "int", "G_str": "str"}    # G is a (generic) model too
-PLAIN_CLASSES = {"int": int, "bool": bool, "str": str, "A": A, "B": B, "M1": M1, "M2": M2, "M3": M3, "M4": M4, "IntList": IntList}
+MODEL_FIELD = {"M1": "int", "M2": "int", "M3": "str", "M4": "Opt_int", "G_int": "int", "G_str": "str", "G2_int_str": "Dict_str_int", "G2_str_int": "Dict_int_str",
+               "MDsi": "Dict_str_int", "MDis": "Dict_int_str"}    # G is a (generic) model too
+PLAIN_CLASSES = {"int": int, "bool": bool, "str": str, "A": A, "B": B, "M1": M1, "M2": M2, "M3": M3, "M4": M4, "IntList": IntList, "MDsi": MDsi, "MDis": MDis}
 def strip(n): return "int" if n == "Ann_int" else n
 
 def ref_coercible(s, d):
@@ -246,7 +266,7 @@ def sound(di, sel, i, s):
     m.ob(f"sound_{sname}", "di: int, sel: int, i: int, s: str", "return sound(di, sel, i, s)",
          pre=["0 <= di < NC", "0 <= sel <= 3", "len(s) <= 1"], timeout=tmo,
          family="semantic soundness of every accepted (source, destination) field-type pair; source value symbolic",
-         bounds=f"source type {sname}; every accepted destination of the 35-type pool; conforming values: all union branches, None, containers of length 0..2, any int, str len<=1")
+         bounds=f"source type {sname}; every accepted destination of the 40-type pool; conforming values: all union branches, None, containers of length 0..2, any int, str len<=1")
     return m
 
 
@@ -255,14 +275,15 @@ def build(tier, seed):
     tmo = 90 if quick else 600
     names = ["int", "bool", "str", "A", "B", "G_int", "G_str", "List_int", "List_str", "List_bool", "Seq_int", "Set_int", "Tuple_int", "Dict_str_int",
              "Dict_str_str", "Opt_int", "Opt_str", "Opt_List_int", "Opt_List_str", "U_int_str", "U_int_str_none", "Ann_int", "Any", "M1", "M2", "M3", "M4",
-             "List_M1", "List_M3", "Opt_M1", "Seq_str", "IntList", "List_Opt_int", "Dict_str_List_int", "Dict_str_List_str"]
+             "List_M1", "List_M3", "Opt_M1", "Seq_str", "IntList", "List_Opt_int", "Dict_str_List_int", "Dict_str_List_str",
+             "Dict_int_str", "G2_int_str", "G2_str_int", "MDsi", "MDis"]
     mods = [src_module(n, tmo) for n in names]
     mt = Module("c14_table").pre(SETUP).pre(REF)
     mt.nat("refusal_table", NAT, timeout=300, family="acceptance relation (labelled enumeration)",
-           bounds="all 35 x 35 ordered pairs of the pool vs the documented relation")
+           bounds="all 40 x 40 ordered pairs of the pool vs the documented relation")
     mt.obs.append(type(mt.obs[0])(name="odd_hints", module=mt.key, kind="nat", timeout=300,
                                   bounds="25 hints outside the typed pool (PEP 604 unions, bare abstract generics, Tuple[()], constant-length tuple, Literal, None, Callable, Type, "
-                                         "TypeVar, object, bytes, ...) x all 60 hints, both directions: converter creation succeeds or is refused with ProviderNotFoundError; "
+                                         "TypeVar, object, bytes, ...) x all 65 hints, both directions: converter creation succeeds or is refused with ProviderNotFoundError; "
                                          "accepted pairs into 10 destinations with an obvious conformance test are sound on a sample value",
                                   family="acceptance relation: hints outside the typed pool (labelled enumeration)"))
     mt.obs.append(type(mt.obs[0])(name="unlinked", module=mt.key, kind="nat", timeout=60, bounds="required / optional unlinked destination field x policy",
@@ -272,4 +293,4 @@ def build(tier, seed):
         m13.obs = [o for o in m13.obs if o.name == "history"]         # a refused pair stays refused whatever was requested before
         mods.append(m13)
     return Plan("C14", mods + [mt], assumptions=["conforms() is the structural typing semantics of the pool types"],
-                bounds={"pool": "35 types", "values": "see obligations"}, outside=["type terms outside the pool", "user coercers"])
+                bounds={"pool": "40 types", "values": "see obligations"}, outside=["type terms outside the pool", "user coercers"])
